@@ -160,3 +160,26 @@ func Has(gs []G, sub string) bool {
 	}
 	return false
 }
+
+// SUT returns the census lines of goroutines that belong to the code under test
+// (not created by harness packages verif/... or by the testing package).
+func SUT() []string {
+	var out []string
+	for _, g := range Census() {
+		if strings.HasPrefix(g.Created, "verif/") || strings.HasPrefix(g.Created, "testing") {
+			continue
+		}
+		harness := false
+		for _, f := range g.Funcs {
+			if strings.HasPrefix(f, "verif/bubble.(*Client)") {
+				harness = true
+			}
+		}
+		if harness {
+			continue
+		}
+		out = append(out, fmt.Sprintf("%s <- %s", g.Created, firstNonRuntime(g.Funcs)))
+	}
+	sort.Strings(out)
+	return out
+}
